@@ -222,11 +222,19 @@ def r4(ctx):
         raise AnchorMissing("Tag.app_to_context/context_to_app")
     rets = [r for r in walk_shallow(a2c) if isinstance(r, ast.Return)]
     cx = a2c.args.args[1].arg
-    bool_ret = [r for r in rets if [x for x in (0, 1, 2, 9) if ev.may_hold(facts_at(r), {"self.tagNumber": x, "self.tagClass": 0})] == [1]]
-    other_ret = [r for r in rets if [x for x in (0, 1, 2, 9) if ev.may_hold(facts_at(r), {"self.tagNumber": x, "self.tagClass": 0})] == [0, 2, 9]]
-    ok = len(bool_ret) == 1 and norm(bool_ret[0].value) == "ContextTag(%s, bytearray([self.tagLVT]))" % cx
+    # what is returned for each application tag number, with the locals of the path substituted
+    from .common import path_return_expr
+    got4 = {}
+    for p_ in enumerate_paths(a2c):
+        if p_.term != "return":
+            continue
+        for x in (0, 1, 2, 9):
+            k_, e_ = path_return_expr(p_, ev, {"self.tagNumber": x, "self.tagClass": 0})
+            if k_ == "expr":
+                got4.setdefault(x, set()).add(norm(e_))
+    ok = got4.get(1) == {"ContextTag(%s, bytearray([self.tagLVT]))" % cx}
     ctx.check("Tag.app_to_context:boolean", ok, where(m, a2c), "an application boolean becomes a context tag whose single data octet is the value (tagLVT)")
-    ok = len(other_ret) == 1 and norm(other_ret[0].value) == "ContextTag(%s, self.tagData)" % cx
+    ok = all(got4.get(x) == {"ContextTag(%s, self.tagData)" % cx} for x in (0, 2, 9))
     ctx.check("Tag.app_to_context:others", ok, where(m, a2c), "every other primitive keeps its data under the context tag")
     rets = [r for r in walk_shallow(c2a) if isinstance(r, ast.Return)]
     dt = c2a.args.args[1].arg
@@ -298,14 +306,28 @@ def r5(ctx):
         raise AnchorMissing("Unsigned.is_valid")
     ev = Evaluator(prog, m, u)
     arg = iv.args.args[1].arg
-    falses = [r for r in walk_shallow(iv) if isinstance(r, ast.Return) and prog.try_const(m, r.value) is False]
+    # the value returned for each (argument, high limit), every feasible path evaluated
+    from .common import path_return_value
     rej = set()
-    for r in falses:
-        fa = [x for x in facts_at(r) if "isinstance" not in norm(x.test)]
-        for v in (-5, -1, 0, 1, 255, 256):
-            for hi in (None, 255):
-                if fa and ev.must_hold(fa, {arg: v, "cls._low_limit": 0, "cls._high_limit": hi, "cls._high_limit is not None": hi is not None}):
-                    rej.add((v, hi))
+    undecided = set()
+    ivp = [p_ for p_ in enumerate_paths(iv) if p_.term == "return"]
+    for v in (-5, -1, 0, 1, 255, 256):
+        for hi in (None, 255):
+            env = {arg: v, "cls._low_limit": 0, "cls._high_limit is not None": hi is not None, "cls._high_limit is None": hi is None,
+                   "isinstance(%s, int)" % arg: True, "isinstance(%s, bool)" % arg: False, "isinstance(%s, long)" % arg: False, "isinstance:%s" % arg: "int"}
+            if hi is not None:
+                env["cls._high_limit"] = hi
+            outs = set()
+            for p_ in ivp:
+                k_, val = path_return_value(p_, ev, env)
+                if k_ == "infeasible":
+                    continue
+                outs.add(val if k_ == "value" else "?")
+            if outs == {False}:
+                rej.add((v, hi))
+            elif outs != {True}:
+                undecided.add((v, hi))
+    rej |= {("undecided",) + x for x in undecided}
     want = {(-5, None), (-1, None), (-5, 255), (-1, 255), (256, 255)}
     ctx.check("Unsigned.is_valid:limits", rej == want, where(m, iv), "is_valid must refuse exactly the values below _low_limit and above a set _high_limit (refused (value, high limit): %r)" % sorted(rej, key=str))
     init = u.methods["__init__"]
@@ -426,16 +448,25 @@ def r7(ctx):
     b = prog.cls(PM, "BitString")
     enc = b.methods["encode"]
     evb = Evaluator(prog, m, b)
-    sts = [s for s in walk_shallow(enc) if isinstance(s, ast.Assign) and norm(s.targets[0]) == "unused"]
-    ok = len(sts) == 1
+    # the value `unused` holds where it is first used (the first data octet), followed along every path, for bit counts 0..70
+    from .common import path_value
+    first_use = [x for x in calls_in(enc) if norm(x.func) == "bytearray"]
+    ok = bool(first_use)
     if ok:
-        e = subst_locals(enc, sts[0].value)
-        # `_, used = divmod(len(self.value), 8)`: used is the remainder
-        dm = [s for s in walk_shallow(enc) if isinstance(s, ast.Assign) and isinstance(s.value, ast.Call) and norm(s.value.func) == "divmod" and isinstance(s.targets[0], ast.Tuple)]
-        ok = len(dm) == 1 and norm(dm[0].value.args[0]) == "len(self.value)" and prog.try_const(m, dm[0].value.args[1]) == 8
-        if ok:
-            rem = norm(dm[0].targets[0].elts[1])
-            ok, cx = same_function(evb, sts[0].value, grid(**{rem: list(range(0, 8))}), lambda e_: (8 - e_[rem]) % 8)
+        stop = enclosing_stmt(first_use[0])
+        for nbits in list(range(0, 20)) + [63, 64, 65, 70]:
+            seen = 0
+            for p_ in enumerate_paths(enc):
+                if not any(e_.node is stop for e_ in p_.events):
+                    continue
+                k_, val = path_value(p_, evb, {"len(self.value)": nbits}, "unused", upto=stop)
+                if k_ == "infeasible":
+                    continue
+                seen += 1
+                if k_ != "value" or val != (8 - nbits % 8) % 8 or isinstance(val, bool):
+                    ok = False
+            if not seen:
+                ok = False
     ctx.check("BitString.encode:unused-bits", ok, where(m, enc), "unused bits must be (8 - n mod 8) mod 8")
     first = [x for x in calls_in(enc) if norm(x.func) == "bytearray"]
     ctx.check("BitString.encode:unused-first", bool(first) and norm(first[0].args[0]) == "[unused]", where(m, enc), "the unused-bit count is the first data octet")
@@ -455,6 +486,84 @@ def r7(ctx):
     sh_e = [n for n in walk_shallow(enc) if isinstance(n, ast.BinOp) and isinstance(n.op, ast.LShift) and "7 - " in norm(n.right)]
     sh_d = [n for n in walk_shallow(dec) if isinstance(n, ast.BinOp) and isinstance(n.op, ast.LShift) and "7 - " in norm(n.right)]
     ctx.check("BitString:msb-first", len(sh_e) == 1 and len(sh_d) == 1, where(m, b.node), "bit i of each octet is 1 << (7 - i) on both sides")
+
+
+@rule("C01.R10", "a bit string holds only 0 and 1: whatever is assigned to a bit is reduced to its truth, a list given to the constructor is accepted only if every element is 0 or 1, decoding appends 0 or 1",
+      floor=4, engines="E5 finite-domain evaluation")
+def r10(ctx):
+    prog = ctx.prog
+    m = prog.module(PM)
+    b = prog.cls(PM, "BitString")
+    ev = Evaluator(prog, m, b)
+    samples = [0, 1, 2, 4, 6, 128, 255, -1, True, False]
+    n = 0
+    for name, f in sorted(b.methods.items()):
+        params = [a.arg for a in f.args.args[1:]]
+        for st in walk_shallow(f):
+            if isinstance(st, ast.Assign) and isinstance(st.targets[0], ast.Subscript) and norm(st.targets[0].value) == "self.value" and not isinstance(st.targets[0].slice, ast.Slice):
+                n += 1
+                v = st.value
+                names = sorted({x.id for x in ast.walk(v) if isinstance(x, ast.Name)} & set(params))
+                ok = True
+                bad = None
+                if prog.try_const(m, v) in (0, 1) and not names:
+                    pass
+                elif len(names) == 1:
+                    for sv in samples:
+                        try:
+                            got = ev.value(v, {names[0]: sv})
+                        except (NotConst, TypeError, ValueError):
+                            ok, bad = False, "not evaluable for %r" % (sv,)
+                            break
+                        if not (isinstance(got, int) and got in (0, 1) and got == (1 if sv else 0)):
+                            ok, bad = False, "%r stored for %r" % (got, sv)
+                            break
+                else:
+                    ok, bad = False, "value %s not understood" % norm(v)
+                ctx.check("BitString.%s:bit-store[%s]" % (name, norm(st.targets[0])), ok, where(m, st),
+                          "a bit must be stored as 1 if the given value is true, else 0 (%s): any other integer is ORed into the neighbouring bits by encode" % bad)
+    if n < 2:
+        raise ShapeError("BitString: %d element stores found" % n)
+    # the constructor takes a list as it is only when every element is 0 or 1
+    init = b.methods["__init__"]
+    whole = [s_ for t_, s_ in stores_in(init) if is_self_attr(t_, "value") and isinstance(s_, ast.Assign) and isinstance(s_.value, ast.Name) and s_.value.id in [a.arg for a in init.args.args[1:]]]
+    ok = len(whole) == 1
+    if ok:
+        flags = [t for t, p_ in atom_texts(facts_at(whole[0])) if p_ and t.isidentifier()]
+        defs = [s_ for s_ in walk_shallow(init) if isinstance(s_, ast.Assign) and len(s_.targets) == 1 and norm(s_.targets[0]) in flags and enclosing_loops(s_)]
+        ok = False
+        for d in defs:
+            flag = norm(d.targets[0])
+            lp = enclosing_loops(d)[0]
+            el = norm(lp.target)
+            if norm(lp.iter) != whole[0].value.id:
+                continue
+            try:
+                res = {sv: ev.value(d.value, {flag: True, el: sv}) for sv in [0, 1, 2, -1, 255]}
+                stay = all(not ev.value(d.value, {flag: False, el: sv}) for sv in (0, 1))
+            except (NotConst, TypeError, ValueError):
+                continue
+            if [bool(res[sv]) for sv in (0, 1, 2, -1, 255)] == [True, True, False, False, False] and stay:
+                ok = True
+    ctx.check("BitString.__init__:list-of-bits-validated", ok, where(m, init), "a list is taken over as the bits only if every element was tested to be 0 or 1")
+    dec = b.methods["decode"]
+    aps = [x for x in calls_in(dec) if norm(x.func) == "data.append"]
+    ok = len(aps) >= 1 and all(len(x.args) == 1 and (prog.try_const(m, x.args[0]) in (0, 1) or _bit_expr(ev, x.args[0])) for x in aps)
+    ctx.check("BitString.decode:appends-bits", ok, where(m, dec), "decoding must append 0 or 1 per bit")
+
+
+def _bit_expr(ev, e):
+    """an expression like (x >> k) & 1 or int(bool(..)): 0 or 1 for every octet"""
+    names = sorted({x.id for x in ast.walk(e) if isinstance(x, ast.Name)})
+    try:
+        import itertools
+        for vals in itertools.product((0, 1, 7, 128, 255), repeat=len(names)):
+            env = dict(zip(names, [v % 8 if n_ in ("i", "j", "k") else v for n_, v in zip(names, vals)]))
+            if ev.value(e, env) not in (0, 1):
+                return False
+        return True
+    except (NotConst, TypeError, ValueError):
+        return False
 
 
 @rule("C01.R8", "the tag header that carries every primitive (length escapes, extended numbers) follows clause 20.2.1 on both sides", floor=8, engines="E4 (shared with C02.R1)")
